@@ -74,13 +74,35 @@ def ref_string(src, to, style):
     return "!" * (len(src) - k) + ".".join(to[k:])
 
 
-def render_hours(tbl, ind):
+def render_hours(tbl, ind, ranges=False):
+    """one directive per weekday, or (ranges) one per distinct interval list with day ranges ('mon - wed'),
+    day lists ('mon - wed, fri') and wrap-around ranges ('sat - mon')"""
     out = []
+    if not ranges:
+        for wd, ivs in tbl:
+            if not ivs:
+                continue
+            rng = ", ".join(f"{a:02d}:{b:02d} - {c:02d}:{d:02d}" for (a, b), (c, d) in ivs)
+            out.append(f"{ind}workinghours {DAYN[wd]} {rng}")
+        return out
+    groups = {}
     for wd, ivs in tbl:
-        if not ivs:
-            continue
+        if ivs:
+            groups.setdefault(tuple(ivs), []).append(wd)
+    for ivs, days in groups.items():
+        days = sorted(set(days))
+        runs = []
+        for d in days:
+            if runs and runs[-1][1] == d - 1:
+                runs[-1][1] = d
+            else:
+                runs.append([d, d])
+        if len(runs) > 1 and runs[0][0] == 0 and runs[-1][1] == 6:      # ... sun, mon ...: one wrap-around range
+            last = runs.pop()
+            runs[0][0] = last[0]
+        specs = [DAYN[a] if a == b else f"{DAYN[a]} - {DAYN[b]}" for a, b in runs]
         rng = ", ".join(f"{a:02d}:{b:02d} - {c:02d}:{d:02d}" for (a, b), (c, d) in ivs)
-        out.append(f"{ind}workinghours {DAYN[wd]} {rng}")
+        out.append(f"{ind}workinghours {', '.join(specs)} {rng}")
     return out
 
 
@@ -109,6 +131,8 @@ def render_deps(n, path, key):
             opts.append(f"maxgapduration {fmt_dur(d['maxgap'])}")
         if d.get("onstart"):
             opts.append("onstart")
+        if d.get("onend"):
+            opts.append("onend")
         o = (" { " + " ".join(opts) + " }") if opts else ""
         items.append(ref_string(path, tuple(d["to"]), d.get("style", "abs")) + o)
     return [("depends " if key == "deps" else "precedes ") + ", ".join(items)]
@@ -134,7 +158,7 @@ def render(ap, rename=None, extra_tail=""):
         L.append(f'leaves {ap.get("gleave_kind", "holiday")} "h" {fmt_date(a)}' + (f" - {fmt_date(b)}" if b is not None else ""))
     for sid, tbl in ap.get("shifts", {}).items():
         L.append(f'shift {R("shift", sid)} "{sid}" {{')
-        L += render_hours(tbl, "  ")
+        L += render_hours(tbl, "  ", ap.get("dayranges"))
         L.append("}")
 
     def rres(n, ind):
@@ -149,7 +173,7 @@ def render(ap, rename=None, extra_tail=""):
         if n.get("shift"):
             L.append(f'{i2}workinghours {R("shift", n["shift"])}')
         elif n.get("hours") is not None:
-            L.extend(render_hours(n["hours"], i2))
+            L.extend(render_hours(n["hours"], i2, ap.get("dayranges")))
         for lv in n.get("leaves", []):
             a, b, kind = lv
             if kind == "vacation":
